@@ -188,7 +188,7 @@ def run(ctx):
         res.count("e2e_overlap_programs", res.evaluations)
         # cycles of length 1..4 through each edge kind
         # (the last two: a plain call next to a lambda / a nested function whose PARAMETER has the name of the called function)
-        kinds = ["call", "keep", "ref", "method", "object", "call_lambda_param", "call_def_param", "inherited"]
+        kinds = ["call", "keep", "ref", "method", "object", "call_lambda_param", "call_def_param", "inherited", "callee"]
         for n in range(1, 5):
             combos = list(itertools.product(kinds, repeat=n))
             if not thorough and len(combos) > 12:
@@ -199,6 +199,9 @@ def run(ctx):
                     nxt = "c%d" % ((i + 1) % n)
                     if kind == "call":
                         body = "    return %s()\n" % nxt
+                    elif kind == "callee":
+                        # the call that closes the cycle sits inside the expression of the function of another call
+                        body = "    return str(%s()).strip()\n" % nxt
                     elif kind == "call_lambda_param":
                         body = "    best = sorted([(2, 1), (1, 2)], key=lambda %s: %s[1])\n    return %s()\n" % (nxt, nxt, nxt)
                     elif kind == "call_def_param":
@@ -277,7 +280,7 @@ def run(ctx):
                         inner._paths.clear()
         # nested eval at depth 1..4
         for depth in range(1, 5):
-            for via in ("call", "keep", "inherited"):
+            for via in ("call", "keep", "inherited", "callee"):
                 src = HEAD + "def inner():\n    log('inner')\n    return 'i'\n\n"
                 if via == "inherited":
                     # the nested eval sits in a method defined by a base class
@@ -289,9 +292,11 @@ def run(ctx):
                 for i in range(depth - 1, 0, -1):
                     if via in ("call", "inherited"):
                         src += "def h%d():\n    log('h%d')\n    return h%d()\n\n" % (i, i, i + 1)
+                    elif via == "callee":
+                        src += "def h%d():\n    log('h%d')\n    return str(h%d()).upper()\n\n" % (i, i, i + 1)
                     else:
                         src += "def h%d():\n    log('h%d')\n    return dds.keep('/n%d', h%d)\n\n" % (i, i, i, i + 1)
-                src += "def top():\n    log('top')\n    return h1()\n"
+                src += "def top():\n    log('top')\n    return %s\n" % ("str(h1()).upper()" if via == "callee" else "h1()")
                 run_case(w, src, lambda m: dds.eval(m.top), "EVAL_IN_EVAL", "nested eval depth %d via %s" % (depth, via))
         res.sample({"program": src, "expected": "EVAL_IN_EVAL"})
     res.rule = ("unit: every ordered list of <= 2 (quick: sampled 3) distinct paths over segments {f,g,fg,x} (depth <= 3) plus %d random lists "
